@@ -2,6 +2,9 @@ import Driver.Proto
 import Driver.Hb
 import Driver.Store
 import Driver.Fl
+import Driver.Cls
+import Driver.Flood
+import Driver.Grp
 /-! Model driver: one request per line on stdin, one answer per line on stdout.
     Pure areas answer from the request alone; `store` threads the backend states. -/
 open Drv
@@ -13,6 +16,9 @@ def dispatch (st : State) (line : String) : State × String :=
   match (line.splitOn " ").filter (· ≠ "") with
   | "hb" :: r => (st, Hb.handle r)
   | "fl" :: r => (st, Fl.handle r)
+  | "cls" :: r => (st, Cls.handle r)
+  | "flood" :: r => (st, Flood.handle r)
+  | "grp" :: r => (st, Grp.handle r)
   | "store" :: r => let (s', out) := Store.handle st.store r; ({ st with store := s' }, out)
   | [] => (st, "bad empty")
   | a :: _ => (st, s!"bad area {a}")
